@@ -525,6 +525,9 @@ impl VariableSet {
 
         // From which context should we unset?
         let index = Self::index_of_context(scope, &self.contexts);
+        // Convert the context index to the position in the variable stack.
+        // (The stack only contains the contexts in which the variable exists.)
+        let index = stack.partition_point(|vic| vic.context_index < index);
 
         // Return an error if the variable is read-only.
         // Unfortunately, this code fragment does not compile because the
